@@ -1,3 +1,3 @@
 pub mod checks;
-pub mod ctx;
+pub use vutil::ctx;
 pub use vcore::{model, ops, registry, stdimpls, util};
